@@ -25,6 +25,8 @@ type FuncInfo struct {
 	NLoops int
 	Anchors map[ast.Stmt][]string // block-level statement -> "callee#k" of the calls it contains outside nested blocks (source order ordinals)
 	CallOrd map[string]int        // callee key -> number of call sites in the body
+	GotoOrd map[*ast.BranchStmt]int // goto statements: ordinal (1-based, source order) among the gotos to the same label
+	NGotos  map[string]int
 }
 
 type Engine struct {
@@ -172,6 +174,14 @@ func (e *Engine) LoadSpec(dir string) error {
 				e.contractErrs[k] = fmt.Sprintf("%s: contract of %s anchors an assertion after call %s but the function has %d call(s) of %s", c.Pos, k, ak, fi.CallOrd[ak[:i]], ak[:i])
 			}
 		}
+		for gk := range c.Gotos {
+			i := strings.LastIndex(gk, "#")
+			n := 0
+			fmt.Sscanf(gk[i+1:], "%d", &n)
+			if n < 1 || n > fi.NGotos[gk[:i]] {
+				e.contractErrs[k] = fmt.Sprintf("%s: contract of %s names goto %s but the function has %d goto(s) to %s", c.Pos, k, gk, fi.NGotos[gk[:i]], gk[:i])
+			}
+		}
 		for n := range c.Loops {
 			if n < 0 || n > fi.NLoops {
 				// the function has fewer loops than when the contract was written (e.g. a loop was unrolled or replaced by a
@@ -219,6 +229,15 @@ func (e *Engine) pos(n ast.Node) string {
 func (e *Engine) indexAnchors(fi *FuncInfo) {
 	fi.Anchors = map[ast.Stmt][]string{}
 	fi.CallOrd = map[string]int{}
+	fi.GotoOrd = map[*ast.BranchStmt]int{}
+	fi.NGotos = map[string]int{}
+	ast.Inspect(fi.Decl.Body, func(nd ast.Node) bool {
+		if bs, ok := nd.(*ast.BranchStmt); ok && bs.Tok == token.GOTO && bs.Label != nil {
+			fi.NGotos[bs.Label.Name]++
+			fi.GotoOrd[bs] = fi.NGotos[bs.Label.Name]
+		}
+		return true
+	})
 	info := fi.Pkg.TypesInfo
 	name := map[*ast.CallExpr]string{}
 	ast.Inspect(fi.Decl.Body, func(nd ast.Node) bool {
